@@ -140,11 +140,24 @@ const LONG_TTL: u32 = 6_312_000;
 
 impl Sim {
     fn new(t: &mut Trace, what: &str, kind: Kind, min_temp: u32, max_ttl: u32, start: u32) -> Sim {
+        Self::new_held_by(t, what, kind, min_temp, max_ttl, start, false)
+    }
+    /// `self_held`: the contract is its own owner / admin (as a self-administered timelock controller
+    /// is). Nobody can sign for it here, so every holder-only call must be refused; the holder is
+    /// shown as index N.
+    fn new_held_by(t: &mut Trace, what: &str, kind: Kind, min_temp: u32, max_ttl: u32, start: u32, self_held: bool) -> Sim {
         let e = new_env(start, min_temp, max_ttl);
-        let u = Universe::new(&e, N);
-        let c = catch(|| match kind {
-            Kind::Owner => e.register(ownable_example::ExampleContract, (u.a(0).clone(),)),
-            Kind::Admin => e.register(Acl, (u.a(0).clone(),)),
+        let mut u = Universe::new(&e, N);
+        let own = <Address as soroban_sdk::testutils::Address>::generate(&e);
+        if self_held {
+            u.push(own.clone());
+        }
+        let holder0 = if self_held { own.clone() } else { u.a(0).clone() };
+        let c = catch(|| match (kind, self_held) {
+            (Kind::Owner, false) => e.register(ownable_example::ExampleContract, (holder0.clone(),)),
+            (Kind::Admin, false) => e.register(Acl, (holder0.clone(),)),
+            (Kind::Owner, true) => e.register_at(&own, ownable_example::ExampleContract, (holder0.clone(),)),
+            (Kind::Admin, true) => e.register_at(&own, Acl, (holder0.clone(),)),
         });
         let prober = e.register(Prober, ());
         let (c, dead) = match c {
@@ -158,12 +171,13 @@ impl Sim {
             return Sim { e, u, c, prober, kind, now: start, min_temp, max_ttl, marks: vec![], last_offer: None, rent: false, dead };
         }
         t.seq(&format!(
-            "{} kind={} min_temp={} max_ttl={} start={} holder=0",
+            "{} kind={} min_temp={} max_ttl={} start={} holder={}",
             what,
             kind.name(),
             min_temp,
             max_ttl,
-            start
+            start,
+            if self_held { N } else { 0 }
         ));
         Sim { e, u, c, prober, kind, now: start, min_temp, max_ttl, marks: vec![], last_offer: None, rent: max_ttl < LONG_TTL, dead }
     }
@@ -379,6 +393,22 @@ fn directed(t: &mut Trace) {
         s.offer(t, 1, 6100, &[0, 1, 2, 3]);
         s.accept(t, &[0, 1, 2, 3]);
 
+        // the contract is its own owner / admin: nobody here can sign for it, so no offer, cancel,
+        // renounce or holder-only call may ever succeed, whoever signs
+        let mut s = Sim::new_held_by(t, "directed self-held", kind, 1, 200_000, 100, true);
+        s.offer(t, 1, 150, &[1]);
+        s.offer(t, 1, 150, &[]);
+        s.offer(t, 1, 150, &[0, 1, 2, 3]);
+        s.guarded(t, &[2]);
+        s.guarded(t, &[]);
+        s.accept(t, &[1]);
+        s.renounce(t, &[3]);
+        s.renounce(t, &[]);
+        s.offer(t, 2, 0, &[2]);
+        s.advance(t, 60);
+        s.accept(t, &[0, 1, 2, 3]);
+        s.guarded(t, &[0, 1, 2, 3]);
+
         // minimum TTL 16: the entry outlives a short offer (documented), but a replacement
         // by a shorter offer must not inherit the older, longer lifetime
         let mut s = Sim::new(t, "directed minimum ttl caveat", kind, 16, 200_000, 100);
@@ -490,6 +520,8 @@ fn long_idle(t: &mut Trace, rng: &mut Rng, n_random: u64) {
 
 fn gen_auth(rng: &mut Rng, right: Option<usize>) -> StdVec<usize> {
     let mut r: StdVec<usize> = vec![];
+    // index N is the contract itself (self-held sequences): nobody can sign for it here
+    let right = right.filter(|&x| x < N);
     match (right, rng.below(100)) {
         (Some(x), 0..=64) => {
             r.push(x);
@@ -546,7 +578,8 @@ fn random_sequence(t: &mut Trace, rng: &mut Rng, k: u64, seed: u64, len: u64) {
     let min_temp = if rng.chance(50) { 1 } else { 16 };
     let max_ttl = *rng.pick(&[200_000u32, 1000, 64]);
     let start = *rng.pick(&[2u32, 100, 5000]);
-    let mut s = Sim::new(t, &format!("rand k={} seed={}", k, seed), kind, min_temp, max_ttl, start);
+    let self_held = rng.chance(8);
+    let mut s = Sim::new_held_by(t, &format!("rand k={} seed={}", k, seed), kind, min_temp, max_ttl, start, self_held);
     for _ in 0..len {
         let holder = s.holder();
         let r = rng.below(100);
